@@ -45,7 +45,7 @@ func hashOf(b byte) common.Hash {
 type nopEvPool struct{}
 
 func (nopEvPool) Update(cstate.LatestBlockState, types.EvidenceList) {}
-func (nopEvPool) CheckEvidence(types.EvidenceList) error              { return nil }
+func (nopEvPool) CheckEvidence(types.EvidenceList) error             { return nil }
 
 func newExec() *cstate.BlockExecutor {
 	return cstate.NewBlockExecutor(cstate.NewStore(memorydb.New()), log.New(), nopEvPool{}, nil)
@@ -294,6 +294,45 @@ func setupChain() {
 		}
 		commit := makeCommit(state1.LastValidators, 1, 0, id1, commits[0].kinds)
 		add("h2/commit=full/txs=130/evidence=0", 2, state1, proposerBlock(2, state1, prop1, commit, many, nil))
+	}
+}
+
+// warmCaches fills every lazily computed field of the shared objects (Commit.hash, Commit.bitArray,
+// EvidenceData.hash, Block.hash/size, ValidatorSet.totalVotingPower / proposer) before any goroutine starts:
+// the repository computes them on first use without synchronisation, and the checker shares the family
+// blocks and validator sets between its workers.
+func warmCaches() {
+	for _, vs := range []*types.ValidatorSet{vals0, state0.Validators, state0.NextValidators, state0.LastValidators,
+		state1.Validators, state1.NextValidators, state1.LastValidators} {
+		if vs == nil || len(vs.Validators) == 0 {
+			continue
+		}
+		vs.TotalVotingPower()
+		vs.GetProposer()
+		vs.Hash()
+	}
+	for _, b := range family {
+		for _, blk := range []*types.Block{b.block, b.decoded} {
+			if blk == nil {
+				continue
+			}
+			blk.Hash()
+			blk.Size()
+			if c := blk.LastCommit(); c != nil {
+				c.Hash()
+				c.BitArray()
+			}
+			if e := blk.Evidence(); e != nil {
+				e.Hash()
+				for _, ev := range e.Evidence {
+					ev.Hash()
+				}
+			}
+			for _, tx := range blk.Transactions() {
+				tx.Hash()
+				tx.Size()
+			}
+		}
 	}
 }
 
